@@ -818,6 +818,11 @@ HARD_POINTS = [
          prior=None),
     dict(net='HO4', pat='b', spread=-60.0, feed='unit:OH', scale=1e3, T=1000.0, P=0.01, order=[2, 3, 1, 0],
          prior=None),
+    # the same defect in the file family of the thorough tier (scale x T x P product)
+    dict(net='BUT5', pat='a', spread=60.0, feed='unit:C4H10', scale=1e-3, T=1000.0, P=0.01, order=[0, 1, 2, 3, 4],
+         prior=None, via='file', layout='exact'),
+    dict(net='BUOH5', pat='a', spread=60.0, feed='steam', scale=1e3, T=1000.0, P=1.0, order=[0, 1, 2, 3, 4],
+         prior=None, via='file', layout='exact'),
 ]
 
 
